@@ -847,6 +847,34 @@ func TestVerif_C04_Schedules(t *testing.T) {
 				if listedAfter {
 					sig = "child-seen-by-tree-walk-survives"
 				}
+				// The known window also presupposes that the parent was still a valid token when the child was attached
+				// to it: the creating request read the parent's entry again after it had written the child's accessor,
+				// and the revocation had not yet touched that entry. A child attached to a parent whose revocation had
+				// already begun (or finished) is a different defect.
+				innerID, derr := w.tc.c.DecodeSSCToken(w.toks[under].id)
+				if derr != nil {
+					innerID = w.toks[under].id
+				}
+				if salted, serr := w.tc.c.tokenStore.SaltID(w.tc.ctx, innerID); serr == nil {
+					pk := "sys/token/id/" + salted
+					var accPut, vetGet, markPut int64
+					for _, o := range ops {
+						switch {
+						case o.Task == "create" && o.Kind == "put" && strings.HasPrefix(o.Key, "sys/token/accessor/") && accPut == 0:
+							accPut = o.Seq
+						case o.Task == "create" && o.Kind == "get" && o.Key == pk && o.Err == nil && accPut > 0 && o.Seq < idxPut:
+							vetGet = o.Seq
+						case o.Task == "revoke" && (o.Kind == "put" || o.Kind == "delete") && o.Key == pk && markPut == 0:
+							markPut = o.Seq
+						}
+					}
+					vetted := vetGet > 0 && (markPut == 0 || vetGet < markPut)
+					detail["parent_read_again_before_its_revocation_began"] = vetted
+					detail["parent_entry_key"] = pk
+					if !vetted && overlap {
+						sig = "child-attached-to-parent-under-revocation-survives"
+					}
+				}
 				if !overlap {
 					sig = "child-survives-revoke:no-overlap"
 				}
